@@ -327,10 +327,16 @@ impl ZchState {
         }
         let mut is_prioritized_activation = false;
         if !matches!(activation, HasValue(..)) {
+            let is_subset_of_followup = matches!(activation, IsSubset);
             activation = self
                 .zch_chords
                 .0
                 .ssm_get_or_is_subset_ksorted(self.zchd.zchd_input_keys.zchik_keys());
+            // Keys that are part of a possible followup chord must not disable zippychord only
+            // because no top-level chord contains them.
+            if is_subset_of_followup && matches!(activation, Neither) {
+                activation = IsSubset;
+            }
         } else {
             is_prioritized_activation = true;
         }
